@@ -253,7 +253,7 @@ class ManifestContext:
         if db_period:
             period: Period = Period(
                 start=datetime.timedelta(0), id=db_period.pid,
-                duration=db_period.duration)
+                duration=db_period.presentation_duration())
         else:
             period = Period(start=datetime.timedelta(0), id="p0")
         max_items = None
